@@ -1082,7 +1082,14 @@ def oracle_alone(site: Dict[str, Any], base: str, a: Dict[str, Any], o: Dict[str
         pre = f"data:{mime};base64,"
         if not got.startswith(pre):
             return f"link {url!r}: data URL does not start with {pre!r}: {got[:60]!r}"
-        if base64.b64decode(got[len(pre):], validate=True) != data:
+        payload = got[len(pre):]
+        if "=" in payload.rstrip("=") or len(payload) % 4 != 0:
+            return f"link {url!r}: the data URL is not one base64 payload (padding inside / wrong length: {len(payload)} characters)"
+        try:
+            decoded = base64.b64decode(payload, validate=True)
+        except Exception as e:
+            return f"link {url!r}: the data URL does not decode as base64 ({type(e).__name__})"
+        if decoded != data:
             return f"link {url!r}: embedded bytes differ from the file"
     return None
 
